@@ -178,16 +178,20 @@ def type_src(t):
 class Knobs:
     """layout knobs of the renderer (C16 / C14 use non-default ones)"""
 
-    def __init__(self, parens=False, pipe=False, comments=False, newline_in_brackets=False, rename=None, annotate=False):
+    def __init__(self, parens=False, pipe=False, comments=False, newline_in_brackets=False, rename=None, annotate=False, fieldrename=None):
         self.parens = parens
         self.pipe = pipe
         self.comments = comments
         self.nl = newline_in_brackets
         self.rename = rename or {}
         self.annotate = annotate
+        self.fieldrename = fieldrename or {}
 
     def name(self, x):
         return self.rename.get(x, x)
+
+    def field(self, f):
+        return self.fieldrename.get(f, f)
 
 
 DEFAULT = Knobs()
@@ -224,14 +228,17 @@ def block(n, kn, ind):
             add(f"{pad}let {pat_src(n.a[0], kn)} = {src(n.a[1], kn, ind)}", pat_names(n.a[0])[0])
             n = n.a[2]
         elif n.kind == "letr":
-            ann = "" if n.a[1] is None else ": {" + ", ".join(f"{f}: float" for f in n.a[1]) + "}"
+            order = n.a[1]
+            if order is None and kn.annotate and n.a[2].kind == "rec":
+                order = sorted((f for f, _ in n.a[2].a[0]), reverse=True)     # agreeing annotation, fields listed in reverse order
+            ann = "" if order is None else ": {" + ", ".join(f"{kn.field(f)}: float" for f in order) + "}"
             add(f"{pad}let {kn.name(n.a[0])}{ann} = {src(n.a[2], kn, ind)}", n.a[0])
             n = n.a[3]
         elif n.kind == "setf":
-            add(f"{pad}{kn.name(n.a[0])}.{n.a[1]} = {src(n.a[4], kn, ind)}", n.a[0] + "sf")
+            add(f"{pad}{kn.name(n.a[0])}.{kn.field(n.a[1])} = {src(n.a[4], kn, ind)}", n.a[0] + "sf")
             n = n.a[5]
         elif n.kind == "letrp":
-            add(f"{pad}let {{{', '.join(f'{f} = {kn.name(v)}' for f, v in n.a[0])}}} = {src(n.a[1], kn, ind)}", n.a[0][0][1])
+            add(f"{pad}let {{{', '.join(f'{kn.field(f)} = {kn.name(v)}' for f, v in n.a[0])}}} = {src(n.a[1], kn, ind)}", n.a[0][0][1])
             n = n.a[2]
         else:
             add(f"{pad}{kn.name(n.a[0])} = {src(n.a[1], kn, ind)}", n.a[0] + "s")
@@ -265,11 +272,11 @@ def src(n, kn=DEFAULT, ind=0, prec=0):
     if k in ("let", "lett", "set", "letp", "letr", "setf", "letrp"):
         return "(" + braces(n, kn, ind) + ")"
     if k == "rec":
-        return "{" + ", ".join(f"{f} = {src(e, kn, ind)}" for f, e in a[0]) + "}"
+        return "{" + ", ".join(f"{kn.field(f)} = {src(e, kn, ind)}" for f, e in a[0]) + "}"
     if k == "field":
-        return f"{src(a[0], kn, ind, 9)}.{a[1]}"
+        return f"{src(a[0], kn, ind, 9)}.{kn.field(a[1])}"
     if k == "recupd":
-        return f"{{ {kn.name(a[0])} <- {a[1]} = {src(a[4], kn, ind)} }}"
+        return f"{{ {kn.name(a[0])} <- {kn.field(a[1])} = {src(a[4], kn, ind)} }}"
     if k == "tup":
         if kn.nl:
             pad = "  " * (ind + 2)
@@ -1044,3 +1051,23 @@ def src(n, kn=DEFAULT, ind=0, prec=0):
 def sx(n):
     h = EXT_SX.get(n.kind)
     return h(n) if h else _core_sx(n)
+
+
+def field_names(p):
+    """all record field names of a program"""
+    out = set()
+
+    def walk(n):
+        if n.kind == "rec":
+            out.update(f for f, _ in n.a[0])
+        elif n.kind in ("field", "setf", "recupd"):
+            out.add(n.a[1])
+        elif n.kind == "letrp":
+            out.update(f for f, _ in n.a[0])
+        for _, ch in children(n):
+            walk(ch)
+    for _, e in p.globals:
+        walk(e)
+    for f in p.fns + [p.dsp]:
+        walk(f.body)
+    return sorted(out)
